@@ -79,6 +79,7 @@ fn item(s: &Style, t: &str) -> String {
 pub fn wx(f: &[&str], merged: bool) -> String {
     let data = unhex(f[0]);
     let cs = cuts(f[1], data.len());
+    let cs_len_one = cs.len() == 1;
     let mut st = WinconBytes::new();
     let mut prev = 0;
     let mut chunks: Vec<Vec<(Style, String)>> = Vec::new();
@@ -86,6 +87,12 @@ pub fn wx(f: &[&str], merged: bool) -> String {
         let chunk = &data[prev..c];
         prev = c;
         chunks.push(st.extract_next(chunk).collect());
+    }
+    if cs_len_one {
+        // provided Iterator methods of WinconBytesIter agree with stepping through next()
+        let all: &Vec<(Style, String)> = &chunks[0];
+        assert_eq!(WinconBytes::new().extract_next(&data).count(), all.len(), "count()");
+        assert_eq!(WinconBytes::new().extract_next(&data).last(), all.last().cloned(), "last()");
     }
     if merged {
         let mut out: Vec<(Style, String)> = Vec::new();
